@@ -16,13 +16,14 @@ package main
 //   (\G(?:P) under RE2, with groups) must reproduce the adapter's outputs.
 
 import (
-	"io"
 	"errors"
 	"fmt"
+	"io"
 	"reflect"
 	"regexp"
 	"strings"
 	"time"
+	"unicode"
 	"unicode/utf8"
 
 	"github.com/dlclark/regexp2/v2"
@@ -405,7 +406,18 @@ func c06All(g, a compat.Matcher, s string, n int) []string {
 	return d
 }
 
+var c06NegPosix = regexp.MustCompile(`\[:\^(upper|lower|alpha|alnum|word|xdigit|graph|print|punct|ascii):\]`)
+
 func c06Guard(pat string, hasB bool, s string) string {
+	// known finding: under IgnoreCase a negated POSIX name is folded AFTER the negation ((?i)[[:^upper:]] holds a, so it
+	// matches a and A); Go folds the named class first and negates then. Only texts with letters can tell the two apart.
+	if strings.Contains(pat, "(?i") && c06NegPosix.MatchString(pat) {
+		for _, r := range s {
+			if unicode.IsLetter(r) {
+				return "re2-negated-posix-ignorecase"
+			}
+		}
+	}
 	if hasB || strings.Contains(pat, `\b`) || strings.Contains(pat, `\B`) {
 		for _, r := range s {
 			if r >= 0x80 && r != utf8.RuneError && syntax.IsWordChar(r) {
@@ -665,6 +677,7 @@ var c06Corpus = []c06Witness{
 	{`(A|(?i:a)\.*)`, "xaA"}, {`(?i:a)b|A`, "xaA"}, {`A|[Aa]b`, "ab"}, // Go's parser loses the fold flag when it factors these alternations: the oracle disagrees with itself and the pair is skipped
 	{`\777`, "ÿǿ"}, {`[\400-\777]+`, "Āǿÿ"}, {`\101\x42\x{43}`, "xABC"}, {`\07`, "\a7"}, {`\a\f\t\n\r\v`, "\a\f\t\n\r\v"}, {`\0`, "\x00"}, {`\377`, "ÿ"}, {`\378`, "\x1f8"}, // escapes: an octal escape keeps its value above \377 (fixed in 533e628)
 	{`[[:digit]x]`, "0x] dx]"}, {`[[:foo]x]`, "fx] 0x]"}, {`[a[:digit]+`, "a0:d5"}, {`[[:^alpha]]`, "a] ^] 0]"}, // a POSIX name that is not closed by ":]" is a run of ordinary members (fixed in fde9056)
+	{`(?i)[[:^upper:]]`, "a"}, {`(?i)[[:^upper:]]+`, "1-"}, {`(?i)x[[:^alpha:]]`, "xk x1"}, // known finding re2-negated-posix-ignorecase (and a text without letters, where both agree)
 	{`(a)(b)?`, "a"}, {`(?i:a)b`, "Ab AB"}, {`日*`, "日日a"}, {`\d+|\D`, "12ab"}, {`é?`, "éé"},
 }
 
